@@ -215,8 +215,12 @@ def run(ctx):
         r4.ok("Get_results and its callees never read self.folder")
     # the entry appended at write time is the full path
     r4.instance(fn=fsb.qualname)
+    from ..flow import Locals
+
+    Lsb = Locals(fsb.node)
     appends = [n for n in ast.walk(fsb.node) if isinstance(n, ast.Call) and isinstance(n.func, ast.Attribute) and n.func.attr == "append" and "__list_results" in norm_text(n.func.value)]
-    if len(appends) == 2 and {norm_text(a.args[0]) for a in appends} == {"iter", "path"}:
+    atxt = [Lsb.text(a.args[0]) for a in appends]
+    if len(appends) == 2 and sum("Folder.Join(self.folder" in t for t in atxt) == 1 and sum(isinstance(a.args[0], ast.Name) and a.args[0].id in Lsb.params for a in appends) == 1:
         r4.ok("Save_Iter appends either the dict or the full path computed at write time")
     else:
         r4.fail(fsb.qualname, "append", fsb.file, fsb.lineno, "_Simu.Save_Iter", f"unexpected history append(s): {[norm_text(a) for a in appends]}")
@@ -235,19 +239,27 @@ def run(ctx):
     fsave = repo.method(f"{MESH}.Mesh", "Save")
     fload = repo.func(f"{MESH}.Load_Mesh")
     r5.instance(fn=fsave.qualname)
+    Ls, Ll = Locals(fsave.node), Locals(fload.node)
     unpack = None
     for n in ast.walk(fsave.node):
         if isinstance(n, ast.Assign) and isinstance(n.targets[0], ast.Tuple) and isinstance(n.value, ast.Call) and (dotted(n.value.func) or "").endswith("_Get_partitioned_data"):
             unpack = [norm_text(e) for e in n.targets[0].elts]
     packed = None
+    outer = None
     for n in ast.walk(fsave.node):
-        if isinstance(n, ast.Assign) and isinstance(n.targets[0], ast.Name) and n.targets[0].id == "partitionedData" and isinstance(n.value, ast.Tuple):
-            packed = [norm_text(e) for e in n.value.elts]
+        if isinstance(n, ast.Assign) and isinstance(n.targets[0], ast.Subscript) and isinstance(Ls.resolve(n.value), ast.Tuple) and len(Ls.resolve(n.value).elts) == 3:
+            tup = Ls.resolve(n.value)
+            outer = [norm_text(e) for e in tup.elts]
+            inner = Ls.resolve(tup.elts[1])
+            if isinstance(inner, ast.Tuple):
+                packed = [norm_text(e) for e in inner.elts]
     loaded = None
     kw = None
+    datavar = None
     for n in ast.walk(fload.node):
-        if isinstance(n, ast.Assign) and isinstance(n.targets[0], ast.Tuple) and norm_text(n.value) == "data[1]":
+        if isinstance(n, ast.Assign) and isinstance(n.targets[0], ast.Tuple) and len(n.targets[0].elts) == 4 and isinstance(n.value, ast.Subscript) and isinstance(n.value.value, ast.Name) and isinstance(n.value.slice, ast.Constant) and n.value.slice.value == 1:
             loaded = [norm_text(e) for e in n.targets[0].elts]
+            datavar = n.value.value.id
         if isinstance(n, ast.Call) and (dotted(n.func) or "").endswith("_Set_partitioned_data"):
             kw = {norm_text(k.value): k.arg for k in n.keywords}
     if not (unpack and packed and loaded and kw):
@@ -264,13 +276,9 @@ def run(ctx):
             else:
                 r5.fail(fload.qualname, "order", fload.file, fload.lineno, "Load_Mesh", f"Save pickles the partition data in the order {q_save} but Load_Mesh hands them to _Set_partitioned_data as {q_load}")
     r5.instance(fn=fload.qualname)
-    outer = None
-    for n in ast.walk(fsave.node):
-        if isinstance(n, ast.Assign) and isinstance(n.targets[0], ast.Subscript) and "dict_groupElem_data" in norm_text(n.targets[0]) and isinstance(n.value, ast.Tuple):
-            outer = [norm_text(e) for e in n.value.elts]
-    uses = sorted({norm_text(n) for n in ast.walk(fload.node) if isinstance(n, ast.Subscript) and isinstance(n.value, ast.Name) and n.value.id == "data"})
-    if outer and len(outer) == 3 and uses == ["data[0]", "data[1]", "data[2]"]:
-        r5.ok(f"outer tuple {outer} read as data[0], data[1], data[2]")
+    uses = sorted({n.slice.value for n in ast.walk(fload.node) if isinstance(n, ast.Subscript) and isinstance(n.value, ast.Name) and n.value.id == datavar and isinstance(n.slice, ast.Constant)}) if datavar else []
+    if outer and len(outer) == 3 and uses == [0, 1, 2]:
+        r5.ok(f"outer tuple {outer} read at positions 0, 1, 2")
     else:
         r5.fail(fload.qualname, "outer", fload.file, fload.lineno, "Load_Mesh", f"outer tuple {outer} vs reads {uses}")
 
